@@ -96,21 +96,86 @@ def _smp_inst(rng):
     return [rng.normal(size=2), rng.normal(size=8), onp.abs(rng.normal(size=2)), onp.abs(rng.normal(size=2)) + 0.2]
 
 
-@obligation(P, 'O1.total_residual_instance', cap=600)
-def o1_instance(h):
-    """the real ConstrainedObjective on a 2-variable / 2-constraint instance (built inside the trace so that p, lam, kappa are
-    symbolic): total_residual = [gradient ; ncp]; |total_residual|^2 < tol^2 implies for every constraint c_i*k_i > -tol,
-    lam_i > -tol, min(c_i k_i, lam_i) < 2 tol and |gradient_j| < tol"""
-    from ..jxh import Case
-    import jax.numpy as jnp
-    CO = _co()
+def _o1_notes(h, CO, affine):
     h.encoded(CO.fischer_burmeister, CO.ConstrainedObjective.__init__, CO.ConstrainedObjective.create_augmented_lagrangian,
               CO.ConstrainedObjective.total_residual, CO.ConstrainedObjective.constrained_residual, CO.ConstrainedObjective.gradient,
               CO.ConstrainedObjective.ncp, CO.ConstrainedObjective.constraint)
-    h.bounds('n=2 unknowns, m=2 constraints (x0 - p6 >= 0 and p7 - x0*x1 >= 0), objective: general quadratic + cubic term, 8 symbolic coefficients; '
-             'x, lam: all reals; kappa > 0; tol > 0: all reals')
-    h.assume_note('the instance (objective/constraint callables) is the harness\'s; every method evaluated is the real ConstrainedObjective\'s',
+    h.bounds('n=2 unknowns, m=2 constraints (%s), objective: general quadratic%s, 8 symbolic coefficients; x, lam: all reals; kappa > 0; tol > 0: all reals'
+             % ('x0 - p6 >= 0 and p7 - x0 - p5*x1 >= 0' if affine else 'x0 - p6 >= 0 and p7 - x0*x1 >= 0', '' if affine else ' + cubic term'))
+    h.assume_note('the instance (objective/constraint callables) is the harness\'s; every method evaluated is the real ConstrainedObjective\'s, '
+                  'constructed inside the trace so that p, lam, kappa are symbolic',
                   'norm(r) < tol is stated as r.r < tol^2 with tol > 0 (the square root is taken by AlSolver.norm, see O4)')
+
+
+@obligation(P, 'O1.total_residual_wiring', cap=300)
+def o1_wiring(h):
+    """real ConstrainedObjective on a 2-variable / 2-constraint non-linear instance: total_residual(x) = [gradient(x) ; ncp(x)],
+    ncp_i = fischer_burmeister(constraint_i(x), lam_i, kappa_i at construction); after a later change of .kappa and .lam the
+    FB block still uses the construction-time penalty while the gradient block uses the current one"""
+    from ..jxh import Case
+    import jax
+    import jax.numpy as jnp
+    CO = _co()
+    _o1_notes(h, CO, False)
+    obj, con = _instance(CO)
+
+    def F(x, p, lam, kappa, lam2, kappa2):
+        o = CO.ConstrainedObjective(obj, con, x, p, lam, kappa)
+        first = (o.total_residual(x), o.gradient(x), o.ncp(x), o.constraint(x), jax.vmap(CO.fischer_burmeister)(o.constraint(x), lam, kappa))
+        o.lam = lam2
+        o.kappa = kappa2
+        o2 = CO.ConstrainedObjective(obj, con, x, p, lam2, kappa2)
+        second = (o.total_residual(x), o2.gradient(x), jax.vmap(CO.fischer_burmeister)(o.constraint(x), lam2, kappa))
+        o.reset_kappa()
+        return first, second, o.kappa
+    ex = _example_inst()
+    ex['lam2'] = onp.array([0.0, 0.4])
+    ex['kappa2'] = onp.array([4.0, 2.5])
+    c = Case(h, F, ex, sampler=lambda rng: _smp_inst(rng) + [onp.abs(rng.normal(size=2)), onp.abs(rng.normal(size=2)) + 0.2], label='total_residual')
+
+    def spec(i, o):
+        (r, g, ncp, cc, fbo), (r2, g2, fb2), kreset = o
+        return [], [Eq(r[:2], g, name='first_block_is_AL_gradient'), Eq(r[2:], ncp, name='second_block_is_ncp'),
+                    Eq(ncp, fbo, name='ncp_i_is_fb_of_constraint_i_lam_i_kappa_i'),
+                    Eq(r2[:2], g2, name='after_update_first_block_uses_current_lam_and_kappa'),
+                    Eq(r2[2:], fb2, name='after_update_fb_block_uses_current_lam_and_construction_kappa'),
+                    Eq(kreset, i['kappa'], name='reset_kappa_restores_construction_kappa')]
+    c.prove('wiring', spec, denoms=False)
+
+
+@obligation(P, 'O1.norm_to_components', cap=300)
+def o1_norm(h):
+    """stacked residual [r_0, r_1, r_2, fb(c,l,k)] (three arbitrary other entries): r.r + fb^2 < tol^2 implies |r_j| < tol,
+    c k > -tol, l > -tol, min(c k, l) < 2 tol — with O1.total_residual_wiring this is the KKT reading of `errorNorm < tol`
+    for every constraint of any instance with up to 4 residual entries"""
+    from ..jxh import Case
+    CO = _co()
+    h.encoded(CO.fischer_burmeister)
+    h.bounds('c, l and three other residual entries: all reals; k > 0, tol > 0: all reals')
+    h.assume_note('composition (by substitution of the exact equalities of O1.total_residual_wiring) is stated, the monolithic instance query is O1.total_residual_instance (thorough tier)')
+    smp = lambda rng: [rng.normal(size=3), rng.normal(), rng.normal(), abs(rng.normal()) + 0.1, abs(rng.normal()) + 0.01]
+    c = Case(h, lambda r, c, l, k, tol: CO.fischer_burmeister(c, l, k), dict(r=onp.array([0.1, -0.2, 0.05]), c=0.3, l=0.2, k=1.5, tol=0.1), sampler=smp, label='fb_in_norm')
+
+    def spec(i, o):
+        r, cc, l, k, tol, fb = i['r'], s0(i['c']), s0(i['l']), s0(i['k']), s0(i['tol']), s0(o)
+        a = v_mul(cc, k)
+        asm = [v_lt(0.0, k), v_lt(0.0, tol), v_lt(v_add(v_dot(r, r), v_sq(fb)), v_sq(tol))]
+        return asm, [Lt(v_abs(r[0]), tol, name='other_entry_below_tol', scale=tol),
+                     Lt(v_abs(fb), tol, name='fb_entry_below_tol', scale=tol),
+                     Lt(v_sub(0.0, tol), a, name='constraint_times_kappa_above_minus_tol', scale=tol),
+                     Lt(v_sub(0.0, tol), l, name='multiplier_above_minus_tol', scale=tol),
+                     Lt(v_min(a, l), v_mul(2.0, tol), name='complementarity_min_below_2tol', scale=tol)]
+    c.prove('norm', spec, order=('nlsat', 'core'), denoms=False)
+
+
+@obligation(P, 'O1.total_residual_instance', tiers=('thorough',), cap=1500)
+def o1_instance(h):
+    """monolithic: the real ConstrainedObjective on a 2-variable / 2-constraint instance: |total_residual|^2 < tol^2 implies for
+    every constraint c_i*k_i > -tol, lam_i > -tol, min(c_i k_i, lam_i) < 2 tol and |gradient_j| < tol"""
+    from ..jxh import Case
+    import jax.numpy as jnp
+    CO = _co()
+    _o1_notes(h, CO, True)
     obj, con = _instance(CO, affine=True)
 
     def F(x, p, lam, kappa, tol):
@@ -119,34 +184,31 @@ def o1_instance(h):
     ex = _example_inst()
     ex['tol'] = 0.1
     c = Case(h, F, ex, sampler=lambda rng: _smp_inst(rng) + [abs(rng.normal()) + 0.01], label='total_residual')
-
-    def spec_layout(i, o):
-        r, g, ncp, cc = o
-        return [], [Eq(r[:2], g, name='first_block_is_AL_gradient'), Eq(r[2:], ncp, name='second_block_is_ncp')]
-    c.prove('layout', spec_layout, denoms=False)
-
     G = [c.ctx.fresh('G%d' % j) for j in range(2)]
 
-    def spec(i, o, G=G):
-        # cut: the (cubic, piecewise) gradient entries are named G_j = r_j so that the norm argument is made on the names
-        r, g, ncp, cc = o
-        lam, kap, tol = i['lam'], i['kappa'], s0(i['tol'])
-        if sym.isz(tol):
-            Gs, defs = G, [v_eq(G[j], r[j]) for j in range(2)]
-        else:
-            Gs, defs = [float(r[j]) for j in range(2)], []
-        small = v_lt(v_add(v_dot(Gs, Gs), v_dot(r[2:], r[2:])), v_sq(tol))
-        asm = [v_lt(0.0, tol), v_lt(0.0, kap[0]), v_lt(0.0, kap[1]), small] + defs
-        ats = []
-        for j in range(2):
-            ats.append(Lt(v_abs(Gs[j]), tol, name='gradient_%d_below_tol' % j, scale=tol))
-        for k in range(2):
-            a = v_mul(cc[k], kap[k])
-            ats.append(Lt(v_sub(0.0, tol), a, name='constraint_%d_times_kappa_above_minus_tol' % k, scale=tol))
-            ats.append(Lt(v_sub(0.0, tol), lam[k], name='multiplier_%d_above_minus_tol' % k, scale=tol))
-            ats.append(Lt(v_min(a, lam[k]), v_mul(2.0, tol), name='complementarity_%d_min_below_2tol' % k, scale=tol))
-        return asm, ats
-    c.prove('kkt', spec, cap=120, order=('nlsat', 'core'), denoms=False)
+    def mk(which):
+        def spec(i, o, G=G):
+            # cut: the piecewise gradient entries are named G_j = r_j so that the norm argument is made on the names
+            r, g, ncp, cc = o
+            lam, kap, tol = i['lam'], i['kappa'], s0(i['tol'])
+            if sym.isz(tol):
+                Gs, defs = G, [v_eq(G[j], r[j]) for j in range(2)]
+            else:
+                Gs, defs = [float(r[j]) for j in range(2)], []
+            small = v_lt(v_add(v_dot(Gs, Gs), v_dot(r[2:], r[2:])), v_sq(tol))
+            asm = [v_lt(0.0, tol), v_lt(0.0, kap[0]), v_lt(0.0, kap[1]), small] + defs
+            ats = []
+            for j in range(2):
+                ats.append(Lt(v_abs(Gs[j]), tol, name='gradient_%d_below_tol' % j, scale=tol))
+            for k in range(2):
+                a = v_mul(cc[k], kap[k])
+                ats.append(Lt(v_sub(0.0, tol), a, name='constraint_%d_times_kappa_above_minus_tol' % k, scale=tol))
+                ats.append(Lt(v_sub(0.0, tol), lam[k], name='multiplier_%d_above_minus_tol' % k, scale=tol))
+                ats.append(Lt(v_min(a, lam[k]), v_mul(2.0, tol), name='complementarity_%d_min_below_2tol' % k, scale=tol))
+            return asm, [a for a in ats if (a.name == 'complementarity_1_min_below_2tol') == which]
+        return spec
+    c.prove('kkt', mk(False), cap=200, order=('core',), denoms=False)
+    c.prove('kkt', mk(True), cap=400, order=('nlsat', 'core'), denoms=False)
 
 
 # =========================================================================================== O3: AL penalty (JX)
@@ -282,3 +344,883 @@ def o3_link(h):
             Le(0.0, mu, name='sub_problem_multiplier_nonneg'),
         ]
     c.prove('link', spec, order=('nlsat', 'core'), denoms=False)
+
+
+# =========================================================================================== PX model pieces
+class KVec(onp.ndarray):
+    """numpy array (object or float) with jax's functional-update interface `a.at[idx].set(v)` (used on `kappa`)"""
+    @property
+    def at(self):
+        return _At(self)
+
+
+class _At:
+    def __init__(self, a):
+        self.a = a
+
+    def __getitem__(self, idx):
+        return _AtIdx(self.a, idx)
+
+
+class _AtIdx:
+    def __init__(self, a, idx):
+        self.a, self.idx = a, idx
+
+    def _upd(self, f):
+        b = onp.array(self.a, dtype=self.a.dtype).view(KVec)
+        b[self.idx] = f(onp.asarray(b)[self.idx])
+        return b
+
+    def set(self, v):
+        return self._upd(lambda old: v)
+
+    def multiply(self, v):
+        return self._upd(lambda old: old * v)
+
+    def add(self, v):
+        return self._upd(lambda old: old + v)
+
+
+def kvec(a):
+    return onp.asarray(a).view(KVec)
+
+
+def _cat(args):
+    out = []
+    for a in args:
+        out.extend(list(onp.asarray(a, dtype=object).reshape(-1)))
+    return out
+
+
+def same_arg(a, b):
+    cs = [px._z(x) == px._z(y) for x, y in zip(a, b)]
+    return z3.And(*cs) if cs else z3.BoolVal(True)
+
+
+class UTable:
+    """uninterpreted vector-valued functions: every call draws fresh reals (same creation order in the symbolic run and in
+    a replay); functional consistency (equal arguments => equal results) is imposed by Ackermann constraints"""
+
+    def __init__(self, ex):
+        self.ex = ex
+        self.calls = {}
+
+    def __call__(self, kind, args, m):
+        ex = self.ex
+        key = _cat(args)
+        val = ex.vec(kind, m)
+        prev = self.calls.setdefault(kind, [])
+        if ex.symbolic:
+            for k2, v2 in prev:
+                cond = same_arg(key, k2)
+                for a, b in zip(val, v2):
+                    ex.pc.append(z3.Implies(cond, px._z(a) == px._z(b)))
+        else:
+            for k2, v2 in prev:
+                if all(float(a) == float(b) for a, b in zip(key, k2)):
+                    return onp.array(v2)
+        prev.append((key, val))
+        return val
+
+
+class UConstrained:
+    """an arbitrary smooth inequality-constrained problem behind the ConstrainedObjective interface: constraint(x),
+    ncp(x; lam), gradient(x; lam, kappa), total_residual(x; lam, kappa) are uninterpreted (fresh reals per distinct
+    argument tuple); lam and kappa are plain attributes exactly as on the real class"""
+
+    def __init__(self, ex, n, m, log=None, lam_nonneg=False):
+        self.ex, self.n, self.m = ex, n, m
+        self.U = UTable(ex)
+        self.log = [] if log is None else log
+        self.p = 'P_OLD'
+        self.lam = ex.vec('lam', m)
+        k = ex.vec('kappa', m)
+        for i in range(m):
+            ex.assume(k[i] > 0)
+            if lam_nonneg:
+                ex.assume(self.lam[i] >= 0)
+        self.kappa = kvec(k)
+
+    def constraint(self, x):
+        return self.U('c', [x], self.m)
+
+    def ncp(self, x):
+        self.log.append(('ncp', x, self.lam))
+        return self.U('ncp', [x, self.lam], self.m)
+
+    def gradient(self, x):
+        return self.U('grad', [x, self.lam, self.kappa], self.n)
+
+    def total_residual(self, x):
+        r = self.U('res', [x, self.lam, self.kappa], self.n + self.m)
+        self.log.append(('total_residual', x, self.lam, self.kappa, r))
+        return r
+
+    def constrained_residual(self, xl):
+        raise px.Unsupported('constrained_residual is only handed to the (stubbed) linear_update')
+
+    def update_precond(self, x):
+        self.log.append(('update_precond', x, self.p, onp.array(x)))
+
+
+def al_settings_sym(ex, mod, max_al_iters=100, newton_only=None, second_order=None):
+    ps, f, tol = ex.real('penalty_scaling'), ex.real('target_constraint_decrease_factor'), ex.real('al_tol')
+    nlow = ex.int('num_initial_low_order_iterations')
+    ex.assume(ps >= 1)
+    ex.assume(tol > 0)
+    ex.assume(nlow >= 0)
+    so = bool(ex.bool('use_second_order_update')) if second_order is None else second_order
+    no = bool(ex.bool('use_newton_only')) if newton_only is None else newton_only
+    return mod.Settings(ps, f, 2e-2, 100, so, no, nlow, 1e-2, max_al_iters, tol)
+
+
+AL_ADMISSIBLE = 'penalty_scaling >= 1, tol > 0, target_constraint_decrease_factor any real, num_initial_low_order_iterations >= 0 (all symbolic); use_second_order_update, use_newton_only: both values'
+
+
+def norm_model(v):
+    """AlSolver.norm = np.linalg.norm; the line search applies it to a BOOLEAN (`norm(trialErrorNorm < errorNorm)`):
+    jnp.linalg.norm(True) = 1.0, (False) = 0.0 (ground fact checked in O4)"""
+    if isinstance(v, SymBool):
+        return 1.0 if bool(v) else 0.0
+    if isinstance(v, (bool, onp.bool_)):
+        return 1.0 if v else 0.0
+    return NP.linalg.norm(v)
+
+
+def _zb(x):
+    """SymBool / bool -> z3 bool or python bool (no branching)"""
+    return x.z if isinstance(x, SymBool) else bool(x)
+
+
+# =========================================================================================== O2: solve_sub_step (PX)
+def make_substep_harness(n, m):
+    def fn(ex):
+        mod = px.load_module(REL_AL)
+        obj = UConstrained(ex, n, m)
+        S = al_settings_sym(ex, mod, newton_only=False, second_order=False)
+        x0 = ex.vec('x', n)
+        ncpOld = ex.vec('ncpErrorOld', m)
+        for i in range(m):
+            ex.assume(ncpOld[i] >= 0)
+        xs = ex.vec('xSub', n)
+        succ = ex.bool('solverSuccess')
+        lam0, kap0 = onp.array(obj.lam), onp.array(obj.kappa)
+        seen = {}
+
+        def sub(o, x, settings, cb):
+            seen['args'] = (o, x, settings, cb)
+            seen['lam_at_sub'] = o.lam
+            return xs, succ
+        xr, ncpErr, flag = mod.solve_sub_step(obj, x0, ncpOld, S, 'SUBSETTINGS', sub, 'SUBCB')
+        lam1, kap1 = obj.lam, obj.kappa
+        ex.goal('sub_solver_called_on_the_objective_from_the_current_point', Holds(seen['args'][0] is obj and seen['args'][1] is x0 and seen['args'][2] == 'SUBSETTINGS' and seen['args'][3] == 'SUBCB'))
+        ex.goal('returns_the_sub_solver_point_and_flag', Holds(xr is xs and flag is succ))
+        c = obj.constraint(xs)
+        for i in range(m):
+            upd = sym.v_max(sym.v_sub(px.unwrap(lam0[i]), sym.v_mul(px.unwrap(kap0[i]), px.unwrap(c[i]))), 0.0)
+            ex.goal('multiplier_update_is_max_lam_minus_kappa_c_at_new_point', Eq(px.unwrap(lam1[i]), upd))
+            ex.goal('multipliers_nonnegative_after', Le(0.0, px.unwrap(lam1[i])))
+        ncpNew = obj.U('ncp', [xs, lam1], m)
+        thr0 = 10.0 * S.tol / onp.sqrt(m)
+        for i in range(m):
+            ex.goal('ncp_error_is_abs_ncp_at_new_point_with_updated_multipliers', Eq(px.unwrap(ncpErr[i]), sym.v_abs(px.unwrap(ncpNew[i]))))
+            thr = sym.v_max(sym.v_mul(px.unwrap(S.target_constraint_decrease_factor), px.unwrap(ncpOld[i])), px.unwrap(thr0))
+            poor = sym.v_lt(thr, px.unwrap(ncpErr[i]))
+            grow = sym.v_and(poor, _zb(succ))
+            ex.goal('penalty_grows_by_penalty_scaling_iff_poor_progress_and_solver_success',
+                    Eq(px.unwrap(kap1[i]), sym.v_if(grow, sym.v_mul(px.unwrap(S.penalty_scaling), px.unwrap(kap0[i])), px.unwrap(kap0[i]))))
+            ex.goal('penalty_never_decreases', Le(px.unwrap(kap0[i]), px.unwrap(kap1[i])))
+            ex.goal('penalty_stays_positive', Lt(0.0, px.unwrap(kap1[i]), scale=0.0))
+            ex.goal('penalty_unchanged_without_solver_success', Eq(px.unwrap(kap1[i]), px.unwrap(kap0[i]), when=sym.v_not(_zb(succ))))
+    return fn
+
+
+O2_GOALS = ['sub_solver_called_on_the_objective_from_the_current_point', 'returns_the_sub_solver_point_and_flag',
+            'multiplier_update_is_max_lam_minus_kappa_c_at_new_point', 'multipliers_nonnegative_after',
+            'ncp_error_is_abs_ncp_at_new_point_with_updated_multipliers', 'penalty_grows_by_penalty_scaling_iff_poor_progress_and_solver_success',
+            'penalty_never_decreases', 'penalty_stays_positive', 'penalty_unchanged_without_solver_success']
+
+
+def _o2_notes(h, n, m):
+    h.encoded('optimism.AlSolver:solve_sub_step (real source)')
+    h.bounds('n=%d unknowns, m=%d constraints; lam: all reals; kappa > 0; constraint / ncp values: arbitrary (uninterpreted functions of their arguments); '
+             'previous ncp error >= 0; settings: %s' % (n, m, AL_ADMISSIBLE))
+    h.assume_note('stub: the sub-problem solver returns an arbitrary point and an arbitrary success flag (its guarantees are C01/C05)',
+                  'stub: objective = arbitrary problem (constraint(x), ncp(x; lam) uninterpreted, functionally consistent); kappa supports jax\'s .at[mask].set(v)',
+                  'penalty monotonicity is claimed for penalty_scaling >= 1 and kappa > 0 only (both assumed)')
+    h.outside('penalty_scaling < 1 or non-positive penalties (inadmissible settings)')
+
+
+@obligation(P, 'O2.sub_step[m=1]', cap=300)
+def o2_m1(h):
+    """solve_sub_step, one constraint: lam+ = max(lam - kappa c(x+), 0) >= 0 for all lam, kappa > 0, c; kappa_i is multiplied by
+    penalty_scaling exactly when |ncp_i| > max(factor*old_i, 10 tol/sqrt(m)) AND the sub-solver reported success, otherwise
+    unchanged; kappa never decreases; returned ncp error is evaluated with the updated multipliers at the new point"""
+    _o2_notes(h, 1, 1)
+    px.run_px(h, 'sub_step', make_substep_harness(1, 1), cap=30, div_mode='goal', sqrt_mode='goal', feas_ms=200, expect_goals=O2_GOALS)
+
+
+@obligation(P, 'O2.sub_step[m=2]', cap=300)
+def o2_m2(h):
+    """same with two unknowns and two constraints (componentwise masks: each penalty grows independently)"""
+    _o2_notes(h, 2, 2)
+    px.run_px(h, 'sub_step', make_substep_harness(2, 2), cap=30, div_mode='goal', sqrt_mode='goal', feas_ms=200, expect_goals=O2_GOALS)
+
+
+# =========================================================================================== O4: one outer AL iteration (PX)
+def select_outer_for(fd):
+    k = [i for i, s in enumerate(fd.body) if isinstance(s, ast.For)][0]
+    return fd.body[k], fd.body[:k]
+
+
+class SubSettings:
+    """stands for EquationSolver.Settings: settings_with_new_tol (real code, EquationSolver) rebuilds it field by field"""
+
+
+def sub_settings_sym(ex):
+    from optimism import EquationSolver as ES
+    tol = ex.real('sub_tol')
+    ex.assume(tol > 0)
+    return ES.get_settings(tol=tol)
+
+
+def make_al_step_harness(n, m, it, newton_only, second_order):
+    """one pass through the body of `for it in range(maxAlIters)` of the real augmented_lagrange_solve from an arbitrary
+    loop-head state (x, lam, kappa > 0, ncpError >= 0, errorNorm >= 0 arbitrary); the real prologue of the function is run
+    first (useWarmStart=False, updatePrecond=False), then the loop-carried locals are havoced"""
+    def fn(ex):
+        mod = px.load_module(REL_AL)
+        mod.norm = norm_model
+        step, src, names = px.extract_step(mod, 'augmented_lagrange_solve', select_outer_for)
+        log = []
+        obj = UConstrained(ex, n, m, log=log)
+        S = al_settings_sym(ex, mod, newton_only=newton_only, second_order=second_order)
+        sub = sub_settings_sym(ex)
+        x_in = ex.vec('x_entry', n)
+        pNew = ('P_NEW',)
+        keep = {}
+
+        def linear_update(o, x, rhs, settings):
+            dx, dl, code = ex.vec('dx', n), ex.vec('dl', m), ex.int('gmresCode')
+            keep['dx0'], keep['dl0'] = onp.array(dx), onp.array(dl)
+            log.append(('linear_update', x, o.lam, rhs, settings, code))
+            return dx, dl, code
+        mod.linear_update = linear_update
+        xs = ex.vec('xSub', n)
+        succ = ex.bool('solverSuccess')
+
+        def sub_solver(o, x, settings, cb):
+            log.append(('sub_solver', x, o.lam, settings, cb, o))
+            return xs, succ
+
+        def callback(xx, pp):
+            log.append(('callback', xx, pp, obj.lam, obj.kappa))
+
+        def havoc(loc):
+            ov = {}
+            ov['x'] = ex.vec('x', n)
+            e = ex.real('errorNorm')
+            ex.assume(e >= 0)
+            ov['errorNorm'] = e
+            ne = ex.vec('ncpError', m)
+            for i in range(m):
+                ex.assume(ne[i] >= 0)
+            ov['ncpError'] = ne
+            ov['it'] = it
+            keep['pre'] = dict(ov)
+            keep['prologue_p'] = obj.p
+            del log[:]
+            return ov
+        kap0 = onp.array(obj.kappa)
+        kind, val, loc = step({}, havoc, obj, x_in, pNew, S, sub, callback, 'SUBCB', sub_solver, False, False, True)
+        lam_pre = keep.get('lam_pre')
+        x0, err0 = keep['pre']['x'], keep['pre']['errorNorm']
+        tol2 = px.unwrap(S.tol * S.tol)
+        # ---- the prologue installed the parameters
+        ex.goal('parameters_installed_before_the_loop', Holds(keep['prologue_p'] is pNew and obj.p is pNew))
+        # ---- callback first
+        ex.goal('callback_at_start_of_iteration_with_current_iterate', Holds(len(log) >= 1 and log[0][0] == 'callback' and log[0][1] is x0 and log[0][2] is pNew))
+        lam_start = log[0][3]
+        # ---- second-order step exactly when configured
+        lus = [e for e in log if e[0] == 'linear_update']
+        want2 = (second_order and bool(it >= S.num_initial_low_order_iterations)) or newton_only
+        ex.goal('second_order_update_exactly_when_configured', Holds(len(lus) == (1 if want2 else 0)))
+        subs = [e for e in log if e[0] == 'sub_solver']
+        ex.goal('sub_problem_solved_exactly_when_not_newton_only', Holds(len(subs) == (0 if newton_only else 1)))
+        k_sub = log.index(subs[0]) if subs else len(log)
+        trials = [e for e in log[:k_sub] if e[0] == 'total_residual']
+        x_ls, lam_ls = x0, lam_start     # state after the line search
+        accepted = False
+        if lus:
+            lu = lus[0]
+            ex.goal('linear_update_from_current_state_with_constrained_residual', Holds(lu[1] is x0 and lu[2] is lam_start and lu[4] is S and lu[3] == obj.constrained_residual))
+            dx, dl = keep['dx0'], keep['dl0']
+            ex.goal('line_search_tries_at_most_10_steps', Holds(1 <= len(trials) <= 10))
+            y_last = loc.get('y')
+            if newton_only:
+                accepted = loc['x'] is y_last
+            else:
+                accepted = subs[0][1] is y_last
+            ex.goal('line_search_rejection_count_consistent', Holds(accepted or len(trials) == 10))
+            for j, tr in enumerate(trials):
+                ex.goal('line_search_trial_point_is_x_plus_scaled_dx', Eq(px.unwrap(tr[1]), px.unwrap(x0 + dx)))
+                ex.goal('line_search_trial_multipliers_are_saved_lam_plus_scaled_dl', Eq(px.unwrap(tr[2]), px.unwrap(lam_start + dl)),
+                        info='multipliers not restored after a rejected trial (trial %d)' % j)
+                dx, dl = dx * 0.2, dl * 0.2
+            if accepted:
+                x_ls, lam_ls = y_last, trials[-1][2]
+                ex.goal('line_search_accepts_only_strict_decrease_of_total_residual_norm', Lt(px.unwrap(loc['trialErrorNorm']), px.unwrap(err0)))
+                ex.goal('accepted_trial_norm_is_norm_of_its_total_residual', Eq(px.unwrap(loc['trialErrorNorm'] * loc['trialErrorNorm']), px.unwrap(NP.dot(trials[-1][4], trials[-1][4]))))
+            else:
+                ex.goal('all_trials_rejected_means_no_decrease', Le(px.unwrap(err0 * err0), px.unwrap(NP.dot(trials[-1][4], trials[-1][4]))))
+        else:
+            ex.goal('no_line_search_without_second_order_update', Holds(len(trials) == 0))
+        # ---- state handed on after the (possible) line search
+        if subs:
+            ex.goal('sub_solver_starts_from_line_search_result', Holds(subs[0][1] is x_ls and subs[0][5] is obj and subs[0][4] == 'SUBCB'))
+            ex.goal('multipliers_after_line_search_are_accepted_trial_or_restored', Eq(px.unwrap(subs[0][2]), px.unwrap(lam_ls)))
+            st = subs[0][3]
+            if it == 0:
+                ex.goal('sub_tolerance_ramp', Eq(px.unwrap(st.tol), px.unwrap(100.0 * sub.tol)))
+            elif it < 3:
+                ex.goal('sub_tolerance_ramp', Holds(sym.v_and(sym.v_lt(px.unwrap(sub.tol), px.unwrap(st.tol)), sym.v_lt(px.unwrap(st.tol), px.unwrap(100.0 * sub.tol)))))
+            else:
+                ex.goal('sub_tolerance_ramp', Holds(st is sub))
+        else:
+            ex.goal('newton_only_state_is_line_search_result', Holds(loc['x'] is x_ls))
+            ex.goal('multipliers_after_line_search_are_accepted_trial_or_restored', Eq(px.unwrap(obj.lam), px.unwrap(lam_ls)))
+        # ---- preconditioner refresh
+        ups = [e for e in log if e[0] == 'update_precond']
+        want_up = bool(lus) and (bool(lus[0][5] != 0) or len(trials) == 10)
+        ex.goal('preconditioner_refreshed_iff_gmres_failed_or_last_trial_reached', Holds(len(ups) == (1 if want_up else 0)))
+        if ups:
+            ex.goal('preconditioner_refreshed_at_line_search_result_before_sub_solve', Holds(ups[0][1] is x_ls and log.index(ups[0]) < k_sub))
+        # ---- penalties
+        for i in range(m):
+            ex.goal('penalty_never_decreases', Le(px.unwrap(kap0[i]), px.unwrap(obj.kappa[i])))
+        # ---- exits
+        if kind == 'return':
+            ex.goal('never_returns_in_newton_only_mode', Holds(not newton_only))
+            ex.goal('returned_point_is_sub_solver_output', Holds(val is xs))
+            ex.goal('callback_at_return_with_returned_point', Holds(log[-1][0] == 'callback' and log[-1][1] is val and log[-1][2] is pNew and log[-1][3] is obj.lam))
+            R = obj.U('res', [val, obj.lam, obj.kappa], n + m)
+            ex.goal('return_only_if_total_residual_norm_with_current_multipliers_below_tol', Lt(px.unwrap(NP.dot(R, R)), tol2),
+                    info='returned x whose total residual (evaluated with the multipliers at return) is not below tol')
+            for i in range(m):
+                ex.goal('multipliers_nonnegative_at_return', Le(0.0, px.unwrap(obj.lam[i])))
+        else:
+            ex.goal('iteration_falls_through_to_next', Holds(kind == 'next'))
+            ex.goal('exactly_one_callback_without_return', Holds(len([e for e in log if e[0] == 'callback']) == 1))
+            if not newton_only:
+                for i in range(m):
+                    ex.goal('multipliers_nonnegative_at_end_of_iteration', Le(0.0, px.unwrap(obj.lam[i])))
+                R = obj.U('res', [loc['x'], obj.lam, obj.kappa], n + m)
+                RR = px.unwrap(NP.dot(R, R))
+                ex.goal('no_return_means_not_converged', Le(tol2, RR))
+                ex.goal('inv_errorNorm_is_norm_of_total_residual_at_new_state', Eq(px.unwrap(loc['errorNorm'] * loc['errorNorm']), RR))
+                ex.goal('inv_iterate_is_sub_solver_output', Holds(loc['x'] is xs))
+                for i in range(m):
+                    ex.goal('inv_ncpError_nonnegative', Le(0.0, px.unwrap(loc['ncpError'][i])))
+            else:
+                ex.goal('newton_only_error_norm_never_increases', Le(px.unwrap(loc['errorNorm']), px.unwrap(err0)))
+    return fn
+
+
+def _o4_notes(h, n, m):
+    h.encoded('optimism.AlSolver:augmented_lagrange_solve (prologue + body of `for it`, extracted by AST from the current source)',
+              'optimism.AlSolver:solve_sub_step (real source)', 'optimism.EquationSolver:settings_with_new_tol')
+    h.bounds('n=%d unknowns, m=%d constraints; loop-head state: arbitrary x, lam (any sign), kappa > 0, ncpError >= 0, errorNorm >= 0; iteration index it in {0,1,2,3,7}; '
+             'settings: %s' % (n, m, AL_ADMISSIBLE))
+    h.assume_note('stub: linear_update (GMRES second-order step) returns an arbitrary (dx, dl, exit code)',
+                  'stub: the sub-problem solver returns an arbitrary point and flag (C01/C05)',
+                  'stub: objective = arbitrary problem: constraint, ncp, gradient, total_residual are uninterpreted functions of (x, lam, kappa), functionally consistent (Ackermann)',
+                  'model: AlSolver.norm of a boolean is 1.0/0.0 (jnp.linalg.norm(True) == 1.0, ground fact), of a vector sqrt(v.v)',
+                  'inductive step: the pre-state is any state, reachable or not')
+    h.outside('quality of the GMRES step; convergence; IEEE rounding')
+
+
+O4_ITS = (0, 1, 2, 3, 7)
+
+
+def _reg_o4():
+    for (newton_only, second_order, tag) in ((False, False, 'first_order'), (False, True, 'second_order'), (True, False, 'newton_only')):
+        for (n, m) in ((1, 1), (2, 2)):
+            for it in (O4_ITS if tag != 'first_order' else (0, 3)):
+                quick = n == 1 and it in (0, 3)
+
+                def ob(h, n=n, m=m, it=it, newton_only=newton_only, second_order=second_order, tag=tag):
+                    _o4_notes(h, n, m)
+                    import jax.numpy as jnp
+                    h.fact('norm_of_boolean_is_1_or_0', float(jnp.linalg.norm(jnp.asarray(1.0) < jnp.asarray(2.0))) == 1.0 and float(jnp.linalg.norm(jnp.asarray(3.0) < jnp.asarray(2.0))) == 0.0,
+                           'jnp.linalg.norm(True) = 1.0, jnp.linalg.norm(False) = 0.0 (the line-search acceptance test applies norm to a comparison)')
+                    px.run_px(h, 'al_step', make_al_step_harness(n, m, it, newton_only, second_order), cap=30, div_mode='goal', sqrt_mode='goal', feas_ms=150)
+                ob.__doc__ = ('one outer iteration (index it=%d) of the real augmented_lagrange_solve (%s mode, n=%d, m=%d) from an arbitrary loop-head state: return only behind '
+                              'norm(total_residual) < tol with the multipliers current at return; line search restores lam on every rejected trial; lam >= 0 at the end of '
+                              'the iteration; kappa never decreases; callback first and at return' % (it, tag, n, m))
+                obligation(P, 'O4.al_iteration[%s,n=%d,m=%d,it=%d]' % (tag, n, m, it), tiers=('quick', 'thorough') if quick else ('thorough',), cap=900)(ob)
+
+
+_reg_o4()
+
+
+# ------------------------------------------------------------------------------------------ O4: prologue / epilogue
+def make_al_whole_harness(useWarmStart, updatePrecond, before, iters):
+    """the whole real augmented_lagrange_solve with max_al_iters = iters (0 or 1), first-order mode"""
+    def fn(ex):
+        mod = px.load_module(REL_AL)
+        mod.norm = norm_model
+        log = []
+        obj = UConstrained(ex, 1, 1, log=log)
+        S = al_settings_sym(ex, mod, max_al_iters=iters, newton_only=False, second_order=False)
+        sub = sub_settings_sym(ex)
+        x0 = ex.vec('x0', 1)
+        x0c = onp.array(x0)
+        dxw = ex.vec('dxWarm', 1)
+        pNew = ('P_NEW',)
+
+        class WS:
+            @staticmethod
+            def warm_start_increment(objective, x, p, *a, **k):
+                log.append(('warm_start', onp.array(x), objective.p, p))
+                return dxw
+        mod.WarmStart = WS
+        xs = ex.vec('xSub', 1)
+        succ = ex.bool('solverSuccess')
+
+        def sub_solver(o, x, settings, cb):
+            log.append(('sub_solver', onp.array(x), o.p))
+            return xs, succ
+
+        def callback(xx, pp):
+            log.append(('callback', onp.array(xx), pp, xx))
+        raised, xr = None, None
+        try:
+            xr = mod.augmented_lagrange_solve(obj, x0, pNew, S, sub, callback=callback, sub_problem_callback='SUBCB', sub_problem_solver=sub_solver,
+                                              useWarmStart=useWarmStart, updatePrecond=updatePrecond, updatePrecondBeforeWarmStart=before)
+        except NameError as e:
+            raised = e
+        start = x0c + dxw if useWarmStart else x0c
+        ex.goal('new_parameters_installed', Holds(obj.p is pNew))
+        pro = [(e[0], e[3], e[2]) if e[0] == 'update_precond' else e for e in log if e[0] in ('warm_start', 'update_precond')]
+        want = []
+        if useWarmStart:
+            if before:
+                want.append(('update_precond', 'P_OLD', x0c))
+            want.append(('warm_start', 'P_OLD', x0c))
+        if updatePrecond:
+            want.append(('update_precond', pNew, start))
+        ex.goal('prologue_sequence_of_precond_updates_and_warm_start', Holds(len(pro) == len(want) and all(e[0] == w[0] and e[2] == w[1] for e, w in zip(pro, want))),
+                info='expected %s' % [(w[0], w[1]) for w in want])
+        for e, w in zip(pro, want):
+            ex.goal('prologue_points', Eq(px.unwrap(e[1]), px.unwrap(w[2])))
+        if useWarmStart:
+            ws = [e for e in log if e[0] == 'warm_start'][0]
+            ex.goal('warm_start_gets_new_parameters_as_argument', Holds(ws[3] is pNew))
+        if iters == 0:
+            ex.goal('iteration_cap_raises_instead_of_returning', Holds(raised is not None and xr is None))
+        else:
+            cbs = [e for e in log if e[0] == 'callback']
+            ex.goal('first_callback_at_start_point_with_new_parameters', Holds(len(cbs) >= 1 and cbs[0][2] is pNew))
+            ex.goal('first_callback_point', Eq(px.unwrap(cbs[0][1]), px.unwrap(start)))
+            ss = [e for e in log if e[0] == 'sub_solver']
+            ex.goal('sub_solver_runs_with_new_parameters_from_start_point', Holds(len(ss) == 1 and ss[0][2] is pNew))
+            ex.goal('sub_solver_start_point', Eq(px.unwrap(ss[0][1]), px.unwrap(start)))
+            R = obj.U('res', [xs, obj.lam, obj.kappa], 2)
+            RR, tol2 = px.unwrap(NP.dot(R, R)), px.unwrap(S.tol * S.tol)
+            if raised is None:
+                ex.goal('return_only_if_total_residual_norm_with_current_multipliers_below_tol', Lt(RR, tol2))
+                ex.goal('returned_point_reported', Holds(xr is xs and len(cbs) == 2 and cbs[1][3] is xs))
+            else:
+                ex.goal('unconverged_after_cap_raises_instead_of_returning', Le(tol2, RR))
+                ex.goal('exception_is_NameError', Holds(isinstance(raised, NameError) and xr is None))
+    return fn
+
+
+@obligation(P, 'O4.prologue_epilogue', cap=600)
+def o4_whole(h):
+    """whole real augmented_lagrange_solve with an iteration cap of 0 and 1, all 8 combinations of useWarmStart / updatePrecond /
+    updatePrecondBeforeWarmStart: parameters installed, warm start sees the old parameters, preconditioner refresh order,
+    the first iteration starts from hugeVal error state, an unconverged solve raises NameError (never returns x)"""
+    _o4_notes(h, 1, 1)
+    h.encoded('optimism.AlSolver:augmented_lagrange_solve (whole function, max_al_iters in {0, 1})')
+    h.assume_note('stub: WarmStart.warm_start_increment returns an arbitrary increment')
+    for ws in (True, False):
+        for up in (True, False):
+            for before in ((True, False) if ws else (True,)):
+                for iters in (0, 1):
+                    px.run_px(h, 'whole[warm=%s,precond=%s,before=%s,iters=%d]' % (ws, up, before, iters), make_al_whole_harness(ws, up, before, iters),
+                              cap=30, div_mode='goal', sqrt_mode='goal', feas_ms=150)
+
+
+# =========================================================================================== O5: bound-constrained front end
+def _scatter_mul(ctx, eqn, iv):
+    """local JX rule for `a.at[idx].multiply(v)` (scatter-mul with concrete indices): target positions are found by binding the
+    real primitive on an all-ones integer operand with a single update equal to 2"""
+    import jax.numpy as jnp
+    from .. import jx
+    operand, idx, upd = iv
+    idxc = jx._idx(idx)
+    out = operand.copy().reshape(-1)
+    uflat = upd.reshape(-1)
+    one = jnp.ones(operand.shape, dtype=jnp.int64)
+    for u in range(uflat.size):
+        e = onp.ones(uflat.size, dtype=onp.int64)
+        e[u] = 2
+        r = onp.asarray(eqn.primitive.bind(one, idxc, jnp.asarray(e.reshape(upd.shape)), **eqn.params)).reshape(-1)
+        for tpos in onp.nonzero(r != 1)[0]:
+            out[tpos] = jx.s_mul(out[tpos], uflat[u])
+    return out.reshape(operand.shape)
+
+
+class _StubPrecondStrategy:
+    """objective preconditioner strategy with a given (symbolic) diagonal"""
+
+    def __init__(self, diag):
+        self.diag = diag
+
+    def initialize(self, x, p):
+        pass
+
+    def precond_at_attempt(self, attempt):
+        d = self.diag
+        return types.SimpleNamespace(diagonal=lambda: d)
+
+
+def _bco_case(h, with_precond):
+    from ..jxh import Case
+    import jax
+    import jax.numpy as jnp
+    from optimism import BoundConstrainedObjective as BCO
+    idx = jnp.array([2, 0])
+
+    def obj(x, p):
+        A = jnp.array([[p[0], p[3], p[4]], [p[3], p[1], p[5]], [p[4], p[5], p[2]]])
+        return 0.5 * x @ (A @ x) + p[6:9] @ x
+
+    def F(x0, p, Kd, css, xq):
+        if with_precond:
+            o = BCO.BoundConstrainedObjective(obj, x0, p, idx, constraintStiffnessScaling=css, precondStrategy=_StubPrecondStrategy(Kd))
+        else:
+            o = BCO.BoundConstrainedObjective(obj, x0, p, idx)
+        xb = o.scaling * xq
+        g_scaled0 = jax.grad(lambda z: obj(o.invScaling * z, p))(o.scaling * x0)
+        return dict(lam0=o.lam, kappa0=o.kappa, scaling=o.scaling, inv=o.invScaling, c=o.constraint(xb), mult=o.get_multipliers(),
+                    gradf0=jax.grad(obj)(x0, p), g_scaled0=g_scaled0, total=o.get_total_residual(xq), resid=o.get_residual(xq),
+                    grad_xb=o.gradient(xb), tot_xb=o.total_residual(xb), kreset=(o.reset_kappa(), o.kappa)[1])
+    ex = dict(x0=onp.array([0.1, -0.3, 0.2]), p=onp.array([2.0, 1.5, 3.0, 0.2, -0.1, 0.3, 0.5, -1.0, 0.7]), Kd=onp.array([2.0, 1.5, 3.0]), css=2.0, xq=onp.array([0.05, 0.2, -0.1]))
+    smp = lambda rng: [rng.normal(size=3), rng.normal(size=9), onp.abs(rng.normal(size=3)) + 0.3, abs(rng.normal()) + 0.3, rng.normal(size=3)]
+    return Case(h, F, ex, sampler=smp, label='bco_precond' if with_precond else 'bco'), [2, 0]
+
+
+@obligation(P, 'O5.bound_objective', cap=400)
+def o5_bco(h):
+    """BoundConstrainedObjective (n=3, bounds on dofs 2 and 0): constraint function is the scaled constrained dofs, initial
+    multipliers max(grad f(x0) * invScaling, 0)[idx] >= 0 and equal to the positive part of the scaled objective's gradient,
+    kappa0 = 1/4, scaling * invScaling = 1, get_multipliers / get_residual / get_total_residual plumbing; without and with
+    a preconditioner strategy (symbolic positive diagonal, symbolic constraintStiffnessScaling > 0)"""
+    import optimism.BoundConstrainedObjective as BCO
+    CO = _co()
+    h.encoded(BCO.BoundConstrainedObjective.__init__, BCO.BoundConstrainedObjective.get_multipliers, BCO.BoundConstrainedObjective.get_residual,
+              BCO.BoundConstrainedObjective.get_total_residual, CO.ConstrainedObjective.__init__, CO.ConstrainedObjective.reset_kappa)
+    h.bounds('n=3 unknowns, constrainedIndices = [2, 0]; objective: general quadratic (9 symbolic coefficients); x0, evaluation point: all reals; '
+             'preconditioner diagonal > 0, constraintStiffnessScaling > 0: all reals')
+    h.assume_note('stub: the preconditioner strategy returns a matrix object whose diagonal() is a symbolic positive vector; scipy sparse_diags in '
+                  'ScaledPrecondStrategy.__init__ (and the onp.array conversion feeding it) is replaced by a no-op (it only stores the matrix for later preconditioner assembly)')
+    from .. import jx
+    jx.OTHER['scatter-mul'] = _scatter_mul
+    jx.OTHER['scatter_mul'] = _scatter_mul
+    BCO.sparse_diags = lambda *a, **k: None
+    BCO.onp = types.SimpleNamespace(array=lambda a: a)
+    for wp in (False, True):
+        c, idx = _bco_case(h, wp)
+
+        def spec(i, o, wp=wp, idx=idx):
+            Kd, css = i['Kd'], s0(i['css'])
+            asm = [v_lt(0.0, css)] + [v_lt(0.0, Kd[k]) for k in range(3)]
+            ats = []
+            sc, inv = o['scaling'], o['inv']
+            ats.append(Eq([v_mul(sc[k], inv[k]) for k in range(3)], [1.0] * 3, name='scaling_times_invScaling_is_one'))
+            if not wp:
+                ats.append(Eq(sc, [1.0] * 3, name='unit_scaling_without_preconditioner'))
+            else:
+                ats.append(Eq([v_sq(sc[1])], [Kd[1]], name='free_dof_scaling_is_sqrt_of_preconditioner_diagonal'))
+                ats.append(Eq([v_mul(v_sq(v_mul(sc[k], css)), 1.0) for k in idx], [Kd[k] for k in idx], name='constrained_dof_scaling_is_sqrt_diag_over_stiffness_scaling'))
+                ats.append(Le(0.0, sc, name='scaling_positive'))
+            ats.append(Le(0.0, o['lam0'], name='initial_multipliers_nonnegative'))
+            ats.append(Eq(o['lam0'], [v_max(v_mul(o['gradf0'][k], inv[k]), 0.0) for k in idx], name='initial_multipliers_are_positive_part_of_scaled_gradient_at_constrained_dofs'))
+            ats.append(Eq(o['lam0'], [v_max(o['g_scaled0'][k], 0.0) for k in idx], name='initial_multipliers_match_gradient_of_scaled_objective'))
+            ats.append(Eq(o['kappa0'], [0.25, 0.25], name='initial_penalty_is_one_quarter'))
+            ats.append(Eq(o['kreset'], [0.25, 0.25], name='reset_kappa_restores_one_quarter'))
+            ats.append(Eq(o['c'], [v_mul(sc[k], i['xq'][k]) for k in idx], name='constraint_is_scaled_constrained_dofs'))
+            ats.append(Eq(o['mult'], [v_mul(o['lam0'][j], sc[k]) for j, k in enumerate(idx)], name='get_multipliers_unscales'))
+            ats.append(Eq(o['resid'], o['grad_xb'], name='get_residual_is_gradient_at_scaled_point'))
+            ats.append(Eq(o['total'], o['tot_xb'], name='get_total_residual_is_total_residual_at_scaled_point'))
+            return asm, ats
+        c.prove('with_precond' if wp else 'no_precond', spec, cap=60)
+
+
+class BoundDriverObjective:
+    def __init__(self, ex, n, log):
+        self.p = 'P_OLD'
+        self.scaling = ex.vec('scaling', n)
+        self.invScaling = ex.vec('invScaling', n)
+        self.log = log
+
+    def reset_kappa(self):
+        self.log.append(('reset_kappa', None, self.p))
+
+    def update_precond(self, x):
+        self.log.append(('update_precond', onp.array(x), self.p))
+
+
+def make_bound_driver_harness(useWarmStart, updatePrecond, n=2):
+    def fn(ex):
+        log = []
+        seen = {}
+        dx = ex.vec('dxWarm', n)
+        xs = ex.vec('xSolver', n)
+
+        class WS:
+            @staticmethod
+            def warm_start_increment(objective, x, p, *a, **k):
+                log.append(('warm_start', onp.array(x), objective.p, p))
+                return dx
+
+        class AL:
+            @staticmethod
+            def augmented_lagrange_solve(objective, x, p, alSettings, subSettings, **kw):
+                log.append(('al_solve', onp.array(x), objective.p))
+                seen.update(obj=objective, p=p, alS=alSettings, subS=subSettings, kw=dict(kw))
+                return xs
+        from optimism import EquationSolver as ES
+        mod = px.load_module(REL_BCS, shims={'optimism.AlSolver': AL, 'optimism.WarmStart': WS, 'optimism.EquationSolver': ES})
+        obj = BoundDriverObjective(ex, n, log)
+        pNew = ('P_NEW',)
+        x0 = ex.vec('x0', n)
+        x0c = onp.array(x0)
+
+        def subcb(xx, oo):
+            log.append(('sub_problem_callback', onp.array(xx), oo.p, oo))
+        solver = lambda *a, **k: None
+        xr = mod.bound_constrained_solve(obj, x0, pNew, 'ALSETTINGS', 'SUBSETTINGS', callback='CB', sub_problem_callback=subcb,
+                                         useWarmStart=useWarmStart, updatePrecond=updatePrecond, sub_problem_solver=solver)
+        xb0 = obj.scaling * x0c
+        start = xb0 + dx if useWarmStart else xb0
+        want = [('reset_kappa', 'P_OLD', None)]
+        if useWarmStart:
+            if updatePrecond:
+                want.append(('update_precond', 'P_OLD', xb0))
+            want.append(('warm_start', 'P_OLD', xb0))
+        want.append(('sub_problem_callback', pNew, xb0))
+        if updatePrecond:
+            want.append(('update_precond', pNew, start))
+        want.append(('al_solve', pNew, start))
+        ex.goal('call_sequence_and_parameter_state', Holds(len(log) == len(want) and all(e[0] == w[0] and e[2] == w[1] for e, w in zip(log, want))),
+                info='expected %s got %s' % ([(w[0], w[1]) for w in want], [(e[0], e[2]) for e in log]))
+        for e, w in zip(log, want):
+            if w[2] is not None:
+                ex.goal('points_passed_along_the_call_sequence', Eq(px.unwrap(e[1]), px.unwrap(w[2])), info=w[0])
+        ex.goal('penalties_reset_before_anything_else', Holds(log[0][0] == 'reset_kappa'))
+        ex.goal('new_parameters_installed_before_al_solve', Holds(obj.p is pNew and [e for e in log if e[0] == 'al_solve'][0][2] is pNew))
+        kw = seen['kw']
+        ex.goal('al_solve_gets_objective_parameters_settings_callbacks_and_solver', Holds(seen['obj'] is obj and seen['p'] is pNew and seen['alS'] == 'ALSETTINGS' and seen['subS'] == 'SUBSETTINGS'
+                                                                                        and kw.get('callback') == 'CB' and kw.get('sub_problem_callback') is subcb and kw.get('sub_problem_solver') is solver))
+        ex.goal('al_solve_does_not_warm_start_or_refresh_again', Holds(kw.get('useWarmStart') is False and kw.get('updatePrecond') is False))
+        ex.goal('result_is_unscaled_al_output', Eq(px.unwrap(xr), px.unwrap(obj.invScaling * xs)))
+        ex.goal('callers_start_vector_not_modified', Eq(px.unwrap(x0), px.unwrap(x0c)))
+    return fn
+
+
+@obligation(P, 'O5.bound_constrained_solve_driver', cap=300)
+def o5_driver(h):
+    """bound_constrained_solve: penalties reset first; objective.p is the new parameter set when augmented_lagrange_solve is entered
+    (all four flag combinations); warm start and its preconditioner refresh see the old parameters; start = scaling*x0 (+ increment);
+    the AL solve is told not to warm start / refresh again; the result is invScaling * (AL output); the caller's x0 is not modified"""
+    h.encoded('optimism.BoundConstrainedSolver:bound_constrained_solve (real source)')
+    h.bounds('n=2 unknowns; symbolic start, scaling vectors, warm-start increment and AL output; all 4 combinations of useWarmStart/updatePrecond')
+    h.assume_note('stubs: WarmStart.warm_start_increment returns an arbitrary vector; AlSolver.augmented_lagrange_solve returns an arbitrary point (its behaviour is O4)')
+    for ws in (True, False):
+        for up in (True, False):
+            px.run_px(h, 'driver[warm=%s,precond=%s]' % (ws, up), make_bound_driver_harness(ws, up), cap=20)
+
+
+# =========================================================================================== O6: bounded convex (real loop, real objective)
+_O6 = {}
+
+
+def _o6_fns():
+    """jaxprs (and jitted versions for replays) of the REAL BoundConstrainedObjective methods for f(x) = a x^2/2 + b x with the
+    bound x >= 0, as pure functions of (x, p=(a,b), lam, kappa); the object is constructed inside the trace"""
+    if _O6:
+        return _O6
+    import jax
+    import jax.numpy as jnp
+    from optimism import BoundConstrainedObjective as BCO
+    idx = jnp.array([0])
+
+    def objf(x, p):
+        return 0.5 * p[0] * x[0] * x[0] + p[1] * x[0]
+
+    def build(x0, p, lam=None, kappa=None):
+        o = BCO.BoundConstrainedObjective(objf, x0, p, idx)
+        if lam is not None:
+            o.lam, o.kappa = lam, kappa
+        return o
+    fns = dict(
+        init=lambda x0, p: (lambda o: (o.lam, o.kappa, o.scaling, o.invScaling, o.constraintKappa))(build(x0, p)),
+        gradient=lambda x, p, lam, kappa: build(x, p, lam, kappa).gradient(x),
+        constraint=lambda x, p, lam, kappa: build(x, p, lam, kappa).constraint(x),
+        ncp=lambda x, p, lam, kappa: build(x, p, lam, kappa).ncp(x),
+        total_residual=lambda x, p, lam, kappa: build(x, p, lam, kappa).total_residual(x),
+    )
+    one = jnp.ones(1)
+    for k, f in fns.items():
+        args = (one, jnp.ones(2)) if k == 'init' else (one, jnp.ones(2), one, one)
+        _O6[k] = (jax.make_jaxpr(f)(*args), jax.jit(f))
+    _O6['__methods'] = (BCO.BoundConstrainedObjective.__init__,)
+    return _O6
+
+
+class RealBoundObjective:
+    """PX-side handle on the real BoundConstrainedObjective: lam / kappa / p are attributes (as on the real class); every
+    method evaluates the jaxpr of the real method on the current symbolic state (JX inside PX), or the real jitted method
+    on floats in a replay"""
+
+    def __init__(self, ex, p, x0):
+        from .. import jx
+        self.ex, self.F = ex, _o6_fns()
+        self.ctx = jx.Ctx() if ex.symbolic else None
+        self.nside = 0
+        self.p = p
+        lam0, kap0, sc, inv, ck = self._call('init', x0, p)
+        self.lam, self.kappa = lam0, kvec(kap0)
+        self.scaling, self.invScaling = sc, inv
+        self.constraintKappa = onp.array(kap0)
+        self.trace = []
+
+    def _call(self, name, *args):
+        from .. import jx
+        cj, jit = self.F[name]
+        ex = self.ex
+        if not ex.symbolic:
+            import jax.numpy as jnp
+            out = jit(*[jnp.asarray(onp.asarray(a, dtype=float)) for a in args])
+            return [onp.asarray(o, dtype=float) for o in out] if isinstance(out, (tuple, list)) else onp.asarray(out, dtype=float)
+        zargs = [px.unwrap(onp.asarray(a, dtype=object)) for a in args]
+        outs = jx.eval_jaxpr(self.ctx, cj.jaxpr, cj.consts, *zargs)
+        for f in self.ctx.side[self.nside:]:
+            ex.pc.append(f)
+        self.nside = len(self.ctx.side)
+        for g, d in self.ctx.denoms:
+            ex._defined_goal('division_defined', (d != 0) if g is None else z3.Implies(g, d != 0), 'zero denominator in the real objective')
+        del self.ctx.denoms[:]
+        res = []
+        for o in outs:
+            w = onp.empty(o.shape, dtype=object)
+            for i, v in enumerate(o.reshape(-1)):
+                w.reshape(-1)[i] = px.wrap(v) if sym.isz(v) else v
+            res.append(w)
+        return res if len(res) > 1 else res[0]
+
+    def gradient(self, x):
+        return self._call('gradient', x, self.p, self.lam, self.kappa)
+
+    def constraint(self, x):
+        return self._call('constraint', x, self.p, self.lam, self.kappa)
+
+    def ncp(self, x):
+        return self._call('ncp', x, self.p, self.lam, self.kappa)
+
+    def total_residual(self, x):
+        return self._call('total_residual', x, self.p, self.lam, self.kappa)
+
+    def reset_kappa(self):
+        self.kappa = kvec(onp.array(self.constraintKappa))
+
+    def update_precond(self, x):
+        self.trace.append('update_precond')
+
+
+def make_convex_harness(max_iters, with_failure):
+    def fn(ex):
+        from optimism import EquationSolver as ES
+        al = px.load_module(REL_AL)
+        al.norm = norm_model
+        bcs = px.load_module(REL_BCS, shims={'optimism.AlSolver': al, 'optimism.EquationSolver': ES})
+        a, b, x0 = ex.real('a'), ex.real('b'), ex.vec('x0', 1)
+        for c in (a >= 0.1, a <= 10.0, b >= -100.0, b <= 100.0, x0[0] >= -100.0, x0[0] <= 100.0):
+            ex.assume(c)
+        p = onp.array([a, b], dtype=object if ex.symbolic else float)
+        obj = RealBoundObjective(ex, p, x0)
+        tol, stol = ex.real('tol'), ex.real('sub_tol')
+        for c in (tol > 0, tol <= 1.0, stol > 0, stol <= 1.0):
+            ex.assume(c)
+        alS = al.get_settings(max_al_iters=max_iters, tol=tol)
+        subS = ES.get_settings(tol=stol)
+        lam_init = onp.array(obj.lam)
+        for i in range(1):
+            ex.goal('initial_multiplier_nonnegative', Le(0.0, px.unwrap(lam_init[i])))
+        hist = []
+
+        def sub_solver(o, x, settings, cb):
+            # contract of the sub-problem solver (C01): success flag => |grad AL(x')| < settings.tol
+            xn = ex.vec('xSub', 1)
+            ok = bool(ex.bool('solverSuccess')) if with_failure else True
+            if ok:
+                g = o.gradient(xn)
+                ex.assume(g[0] < settings.tol)
+                ex.assume(g[0] > -settings.tol)
+            return xn, ok
+
+        def callback(xx, pp):
+            hist.append((onp.array(obj.lam), onp.array(obj.kappa)))
+        raised, xr = None, None
+        try:
+            xr = bcs.bound_constrained_solve(obj, x0, p, alS, subS, callback=callback, sub_problem_callback=None, useWarmStart=False, updatePrecond=False,
+                                             sub_problem_solver=sub_solver)
+        except NameError as e:
+            raised = e
+        for k, (lm, kp) in enumerate(hist):
+            ex.goal('multipliers_nonnegative_at_every_callback', Le(0.0, px.unwrap(lm[0])))
+            if k:
+                ex.goal('penalty_never_decreases_between_callbacks', Le(px.unwrap(hist[k - 1][1][0]), px.unwrap(kp[0])))
+        if raised is None:
+            x = xr[0]
+            lam = obj.lam[0]
+            # constrained minimiser of a x^2/2 + b x over x >= 0: a x* = max(-b, 0); multiplier lam* = max(b, 0)
+            axs = sym.v_max(sym.v_sub(0.0, px.unwrap(b)), 0.0)
+            lstar = sym.v_max(px.unwrap(b), 0.0)
+            ex.goal('returned_point_is_constrained_minimiser_within_80_tol_over_a', Le(sym.v_abs(sym.v_sub(sym.v_mul(px.unwrap(a), px.unwrap(x)), axs)), px.unwrap(80.0 * tol), scale=px.unwrap(tol)))
+            ex.goal('returned_multiplier_within_210_tol_of_kkt_multiplier', Le(sym.v_abs(sym.v_sub(px.unwrap(lam), lstar)), px.unwrap(210.0 * tol), scale=px.unwrap(tol)))
+            ex.goal('returned_point_feasible_within_4_tol', Le(px.unwrap(-4.0 * tol), px.unwrap(x), scale=px.unwrap(tol)))
+            ex.goal('returned_multiplier_nonnegative', Le(0.0, px.unwrap(lam)))
+            ex.goal('complementarity_within_tolerance', Le(sym.v_min(sym.v_mul(0.25, px.unwrap(x)), px.unwrap(lam)), px.unwrap(2.0 * tol), scale=px.unwrap(tol)))
+        else:
+            ex.goal('unwinding_bound_reached_raises', Holds(isinstance(raised, NameError)))
+    return fn
+
+
+def _o6_notes(h, iters, with_failure):
+    import optimism.BoundConstrainedObjective as BCO
+    CO = _co()
+    h.encoded('optimism.BoundConstrainedSolver:bound_constrained_solve (real source)', 'optimism.AlSolver:augmented_lagrange_solve (whole real function)',
+              'optimism.AlSolver:solve_sub_step', BCO.BoundConstrainedObjective.__init__, CO.ConstrainedObjective.__init__, CO.ConstrainedObjective.gradient,
+              CO.ConstrainedObjective.ncp, CO.ConstrainedObjective.constraint, CO.ConstrainedObjective.total_residual, CO.fischer_burmeister,
+              CO.ConstrainedObjective.create_augmented_lagrangian)
+    h.bounds('n=1, one bound x >= 0; f = a x^2/2 + b x with 1/10 <= a <= 10, |b| <= 100, |x0| <= 100; default AL settings (tol 1e-8, penalty_scaling 4, kappa0 1/4), '
+             'default sub-solver settings; at most %d outer iterations unrolled (the real loop raises NameError at the bound: then nothing is claimed about the result)' % iters)
+    h.assume_note('the sub-problem solver is replaced by its contract: returns SOME point with |grad AL| < (ramped) sub tolerance and flag True'
+                  + ('; or any point with flag False' if with_failure else ''),
+                  'the objective methods are the jaxprs of the real BoundConstrainedObjective/ConstrainedObjective methods evaluated on the symbolic state (JX inside PX); update_precond is a no-op')
+    h.outside('that the loop terminates within the bound (with the default tolerances the first three sub-solves are only required to reach 100^(1-it/3) * 1e-8, so an early return is possible but not forced); '
+              'n >= 2; non-quadratic objectives')
+
+
+@obligation(P, 'O6.bounded_convex[iters=2]', cap=600)
+def o6_2(h):
+    """real bound_constrained_solve + real augmented_lagrange_solve + real objective jaxprs, 2 outer iterations unrolled: every
+    return delivers the constrained minimiser (a|x - x*| <= 80 tol), the KKT multiplier (within 210 tol), lam >= 0 at every
+    callback, penalties non-decreasing"""
+    _o6_notes(h, 2, False)
+    px.run_px(h, 'convex', make_convex_harness(2, False), cap=60, div_mode='goal', sqrt_mode='goal', feas_ms=300,
+              expect_goals=['returned_point_is_constrained_minimiser_within_80_tol_over_a', 'returned_multiplier_within_210_tol_of_kkt_multiplier'])
